@@ -61,6 +61,7 @@ func sameOrigins(a, b map[string]ssax.Origin) bool {
 }
 
 func DocFlow(w *load.World, c *core.Collector) {
+	idLookupComplete(w, c)
 	props := []string{"C01", "C02"}
 	n := 0
 	for _, f := range w.Fns {
@@ -323,6 +324,47 @@ func DocFlow(w *load.World, c *core.Collector) {
 				} else {
 					c.Add("DOCFLOW", "merged=marshal:"+fk, core.OK, w.At(setPoint), "", "C01")
 				}
+				// the size limit is tested on what is stored: where the closure compares a length with the
+				// plan's MaxPointSize, the value measured is the very value that goes into the point store
+				// (the merged document, which can exceed the limit when the request's own payload does not)
+				stored := map[ssa.Value]bool{}
+				for _, o := range originSet(ssax.ResolveField(setPoint.Call.Args[1], "Point", "Data")) {
+					if len(o.Path) == 0 {
+						stored[o.Val] = true
+					}
+				}
+				nCmp, okCmp := 0, false
+				for _, bb := range f.Blocks {
+					for _, ii := range bb.Instrs {
+						bo, ok := ii.(*ssa.BinOp)
+						if !ok {
+							continue
+						}
+						for _, pr := range [][2]ssa.Value{{bo.X, bo.Y}, {bo.Y, bo.X}} {
+							lc, ok := pr[0].(*ssa.Call)
+							if !ok {
+								continue
+							}
+							if bi, ok := lc.Call.Value.(*ssa.Builtin); !ok || bi.Name() != "len" {
+								continue
+							}
+							if !ssax.Prov(pr[1])["field:MaxPointSize"] && !deepHas(w, pr[1], "field:MaxPointSize") {
+								continue
+							}
+							nCmp++
+							if stored[lc.Call.Args[0]] && ssax.Precedes(bo, setPoint) {
+								okCmp = true
+							}
+						}
+					}
+				}
+				if nCmp > 0 {
+					if okCmp {
+						c.Add("DOCFLOW", "size-of-stored:"+fk, core.OK, w.At(setPoint), "", "C01", "C18")
+					} else {
+						c.Add("DOCFLOW", "size-of-stored:"+fk, core.Violation, w.At(setPoint), "the point size limit is tested on a value other than the one that is stored (the request's payload instead of the merged document): an update that fits by itself can push the stored document over the limit", "C01", "C18")
+					}
+				}
 			}
 		} else if !isZero(prevData) && setPoint != nil {
 			c.Add("DOCFLOW", "previous=loaded:"+fk, core.Violation, w.At(setPoint), "previous data "+originNames(prevData)+" is reported for a point that was not loaded from the store", props...)
@@ -401,4 +443,95 @@ func isMarshalResult(v ssa.Value, depth int) bool {
 		found = true
 	}
 	return found
+}
+
+// idLookupComplete: a read by ids looks every requested id up. In searchById the loop over the
+// ids is left only when the list is exhausted or with an error: an id that is not stored is
+// skipped (continue), it does not end the loop — the ids listed after it would silently be
+// missing from the answer, and from every _and/_or tree the answer is combined into.
+func idLookupComplete(w *load.World, c *core.Collector) {
+	props := []string{"C01", "C02"}
+	f := findFn(w, "(shard/index.indexManager).searchById")
+	if f == nil {
+		c.Add("DOCFLOW", "anchor:searchById", core.Undecided, "", "indexManager.searchById not found", props...)
+		return
+	}
+	isLookup := func(in ssa.Instruction) bool {
+		call, ok := in.(*ssa.Call)
+		return ok && call.Call.StaticCallee() != nil && strings.Contains(call.Call.StaticCallee().Name(), "GetPointNodeIdByUUID")
+	}
+	f = homeOf(f, func(g *ssa.Function) bool {
+		for _, b := range g.Blocks {
+			for _, in := range b.Instrs {
+				if isLookup(in) && inLoop(b) {
+					return true
+				}
+			}
+		}
+		return false
+	})
+	var lb *ssa.BasicBlock
+	for _, b := range f.Blocks {
+		for _, in := range b.Instrs {
+			if isLookup(in) && inLoop(b) {
+				lb = b
+			}
+		}
+	}
+	if lb == nil {
+		c.Add("DOCFLOW", "id-lookup-complete", core.OK, w.Position(f.Pos()), "no loop: a single id", props...)
+		return
+	}
+	loop := map[*ssa.BasicBlock]bool{}
+	for _, b := range f.Blocks {
+		if b == lb || (ssax.Reaches(lb, b) && ssax.Reaches(b, lb)) {
+			loop[b] = true
+		}
+	}
+	succ := map[*ssa.BasicBlock]bool{}
+	for _, ex := range successExits(f) {
+		succ[ex.In.Block()] = true
+	}
+	reachesSuccess := func(from *ssa.BasicBlock) bool {
+		for sb := range succ {
+			if from == sb || ssax.Reaches(from, sb) {
+				return true
+			}
+		}
+		return false
+	}
+	bad := ""
+	for b := range loop {
+		for i, sc := range b.Succs {
+			if loop[sc] {
+				continue
+			}
+			// the exhaustion test of a range loop: index < len, or the ok of next()
+			exhausted := false
+			if ifi, ok := b.Instrs[len(b.Instrs)-1].(*ssa.If); ok && i == 1 {
+				switch x := ifi.Cond.(type) {
+				case *ssa.BinOp:
+					if x.Op == token.LSS {
+						if lc, ok := x.Y.(*ssa.Call); ok {
+							if bi, ok := lc.Call.Value.(*ssa.Builtin); ok && bi.Name() == "len" {
+								exhausted = true
+							}
+						}
+					}
+				case *ssa.Extract:
+					if _, isNext := x.Tuple.(*ssa.Next); isNext && x.Index == 0 {
+						exhausted = true
+					}
+				}
+			}
+			if !exhausted && reachesSuccess(sc) {
+				bad = w.At(b.Instrs[len(b.Instrs)-1])
+			}
+		}
+	}
+	if bad != "" {
+		c.Add("DOCFLOW", "id-lookup-complete", core.Violation, bad, "the loop over the requested ids can be left early on a path that still reports success: ids listed after that point are never looked up and are silently missing from the result", props...)
+	} else {
+		c.Add("DOCFLOW", "id-lookup-complete", core.OK, w.Position(f.Pos()), "", props...)
+	}
 }
